@@ -99,6 +99,9 @@ func (s *Sim) RunQueryScript(b *WB, c *Compiled, o *Op) (fd *Finding) {
 			}
 			refOrd = append(refOrd, ord)
 		}
+		if b == s.B {
+			s.LastQueryOrder = ref
+		}
 		if fd = s.checkSelection(b, c, refOrd, what); fd != nil {
 			return
 		}
